@@ -7,23 +7,33 @@ from . import common
 
 PID = "C08"
 RULE = ("case = generated statement x transformation {injective renaming of table aliases, derived-table aliases and CTE names from an adversarial pool (bare names of the "
-        "statement's other base tables incl. ones aliased away in the same scope, column names, mixed case, non-reserved words), add alias, drop alias, toggle AS}; the new name never "
+        "statement's other base tables incl. ones aliased away in the same scope, column names, mixed case, quoted mixed-case identifiers, non-reserved words), add alias, drop alias, toggle AS}; the new name never "
         "equals another relation name visible in the same FROM scope; tables and end-to-end column pairs of original and transformed statement must be equal (local names mapped); "
         "non-trivial = both analyses returned and the transformation changed the text")
 
 WORDS = ["name", "type", "value", "status", "level", "data", "source", "target"]
 
 
+QUOTES = {"mysql": "`", "sparksql": "`", "bigquery": "`", "tsql": "[", "non-validating": '"'}
+
+
+def _norm(n):
+    """what an identifier token denotes: quoted keeps its case, unquoted folds to lower case"""
+    if n[:1] in '"`[':
+        return n[1:-1]
+    return n.lower()
+
+
 def map_desc(d, mapping):
     if d.startswith("<") and "|" in d:
         cands, _, col = d[1:].rpartition(">.")
-        cs = sorted(mapping.get(c, c).lower() if c in mapping else c for c in cands.split("|"))
+        cs = sorted(_norm(mapping[c]) if c in mapping else c for c in cands.split("|"))
         # two references to one relation collapse into one candidate
         cs = sorted(set(cs))
         return ("<" + "|".join(cs) + ">." + col) if len(cs) > 1 else f"{cs[0]}.{col}"
     owner, _, col = d.rpartition(".")
     if owner in mapping:
-        return f"{mapping[owner].lower()}.{col}"
+        return f"{_norm(mapping[owner])}.{col}"
     return d
 
 
@@ -52,7 +62,10 @@ def run(tier):
         cols = sorted({e.name for e in sqlgen.all_exprs(st) if e.kind == "col"})[:4]
         d = "ansi" if i % 3 else rnd.choice(["mysql", "postgres", "sparksql", "snowflake", "bigquery", "tsql", "non-validating"])
         # non-reserved words are offered only to sqlfluff dialects: the legacy analyzer's lexer treats them as keywords (KF-30d territory)
-        pool = tables + cols + ["Zq%d" % rnd.randrange(99), "QW_%d" % rnd.randrange(99)] + (rnd.sample(WORDS, 2) if d != "non-validating" else [])
+        q = QUOTES.get(d, '"')
+        # quoted mixed-case names are offered to sqlfluff dialects only: the legacy analyzer lower-cases every quoted identifier (KF-16c, decided by C16)
+        quoted = [(q + n + ("]" if q == "[" else q)) for n in (["MiX%d" % rnd.randrange(99), "Order%d" % rnd.randrange(9)] if d != "non-validating" else []) + ["lo_%d" % rnd.randrange(99)]]
+        pool = tables + cols + ["Zq%d" % rnd.randrange(99), "QW_%d" % rnd.randrange(99)] + quoted + (rnd.sample(WORDS, 2) if d != "non-validating" else [])
         if not common.is_core_for(d, tags):
             d = "ansi"
         cases.append({"sql": sql, "dialect": d, "want": []})
